@@ -25,6 +25,26 @@ def _weight(label):
     return 1 if any(m in label for m in MAJOR) else 2
 
 
+# statement-granularity pass: every statement of the commit path and of the report sending path is a scheduling point
+LINE_ANCHORS = sched.LineAnchors([
+    ('mdib/providermdib.py', '_transaction_manager'),
+    ('mdib/transactions.py', 'process_transaction'),
+    ('mdib/transactions.py', '_handle_state_updates'),
+    ('provider/providerimpl.py', '*'),
+    ('provider/subscriptionmgr_base.py', 'send_to_subscribers'),
+    ('provider/subscriptionmgr_base.py', '_get_subscriptions_for_action'),
+    ('provider/subscriptionmgr.py', '*'),
+    ('provider/porttypes/stateeventserviceimpl.py', '*'),
+    ('provider/porttypes/waveformserviceimpl.py', '*'),
+    ('provider/porttypes/descriptioneventserviceimpl.py', '*'),
+    ('provider/porttypes/contextserviceimpl.py', '*'),
+])
+
+
+def _line_weight(label):
+    return 1 if label.startswith('line:') or any(m in label for m in MAJOR) else 99
+
+
 class Recorder:
     def __init__(self):
         self.received = []
@@ -35,10 +55,12 @@ class Recorder:
 
 
 class Run:
-    def __init__(self, scenario, prefix):
+    def __init__(self, scenario, prefix, lines=False):
         from mcx.checks import c08
         self.scenario = scenario
         self.s = sched.Scheduler(prefix)
+        if lines:
+            self.s.line_anchors = LINE_ANCHORS
         world.install()
         w = world.World()
         world.ENV.sched = self.s
@@ -159,19 +181,23 @@ class Run:
 
 
 def _key(arg):
-    return ' || '.join(f'{k}x{n}' for k, n in arg[0]) + f' /bound={arg[1]}'
+    return ' || '.join(f'{k}x{n}' for k, n in arg[0]) + f' /bound={arg[1]}' + ('/statements' if len(arg) > 3 else '')
 
 
 def _explore(acc, job):
     arg, start, expand_only = job
-    scenario, bound, cap = arg
-    name = ' || '.join(f'{k}x{n}' for k, n in scenario)
+    scenario, bound, cap = arg[:3]
+    lines = len(arg) > 3
+    _weight = _line_weight if lines else globals()['_weight']
+    name = ' || '.join(f'{k}x{n}' for k, n in scenario) + (' [statements]' if lines else '')
     outcomes = set()
     found = {}
 
     def one(prefix):
-        r = Run(scenario, prefix).go()
+        r = Run(scenario, prefix, lines).go()
         problems, versions = r.judge()
+        if lines:
+            acc.add('statement-points', r.s.line_points)
         return r.s.trace, (versions, problems, r.s.choices())
 
     def on_exec(prefix, trace, payload):
@@ -200,7 +226,7 @@ def _explore(acc, job):
         acc.nontrivial(h64(('c04b', name, o)))
     for kind, (detail, choices, pre) in found.items():
         acc.violation(f'concurrent-writers/{kind}/{name}', {'scenario': name, 'detail': detail, 'schedule': choices, 'preemptions': pre},
-                      case={'kind': 'writers', 'scenario': [list(x) for x in scenario], 'schedule': choices})
+                      case={'kind': 'writers', 'scenario': [list(x) for x in scenario], 'schedule': choices, 'lines': lines})
 
 
 def scenarios(quick):
@@ -226,6 +252,10 @@ def run(ctx):
         jobs += [([(a, 2), (b, 2)], 2, 4000) for a, b in itertools.combinations(kinds, 2)]
         jobs += [([(a, 1), (b, 1), (c, 1)], 2, 4000) for a, b, c in itertools.combinations(kinds, 3)]
         jobs += [([('metric', 2), ('alert', 2)], 3, 4000), ([('rt', 2), ('descr', 1)], 3, 4000), ([('context', 2), ('metric', 1)], 3, 4000)]
+    line_sc = [[('metric', 1), ('alert', 1)], [('rt', 1), ('descr', 1)], [('context', 1), ('metric', 1)]]
+    if not ctx.quick:
+        line_sc = [[(a, 1), (b, 1)] for a, b in itertools.combinations(kinds, 2)] + [[('metric', 2), ('metric', 1)]]
+    jobs += [(s, 1 if ctx.quick else 2, 3000, 'lines') for s in line_sc]
     ctx.note('writer_scenarios', len(jobs))
     ctx.note('writer_preemption_bounds', sorted({j[1] for j in jobs}))
     sched.run_partitioned(ctx, _explore, ctx.rotate(jobs), _key, group=8)
@@ -233,7 +263,7 @@ def run(ctx):
 
 def replay(ctx, case):
     sc = [tuple(x) for x in case['scenario']]
-    r = Run(sc, case['schedule']).go()
+    r = Run(sc, case['schedule'], bool(case.get('lines'))).go()
     problems, versions = r.judge()
     for kind, detail in problems:
         ctx.violation(f'concurrent-writers/{kind}', detail)
